@@ -176,8 +176,8 @@ blte_chunk_read!(c02_blte_chunk_read_n4_cs5, 4, 5, "alloc");
 // @harness prop=C02 tier=quick timeout=900 role=blte-chunk-read-alloc
 // @bounds 4-byte payload buffer, compressed_size = 0xFFFF_FFFF (largest value a chunk-table entry can carry)
 // @encodes cascette_formats::blte::chunk::ChunkData::read_options
-// @catches KF: `vec![0u8; compressed_size - 1]` is allocated from the table's 32-bit size field before the remaining input is checked (4 GiB request from a 40-byte file)
-blte_chunk_read!(c02_blte_chunk_read_alloc, 4, 0xFFFF_FFFF, "KF:blte_chunk_data_alloc allocation request out of proportion to input");
+// @catches regression of fix d477887: payload buffer allocated from the table's 32-bit size field before the remaining input is known (4 GiB request from a 40-byte file)
+blte_chunk_read!(c02_blte_chunk_read_alloc, 4, 0xFFFF_FFFF, "ChunkData::read: allocation request out of proportion to input");
 
 // ---- decrypt_chunk_with_keys: header walk -----------------------------------------------------------------------
 static KEY: [u8; 16] = [7; 16];
